@@ -93,6 +93,14 @@ def corrupt(plugin, res, kind, start, end, dt):
         r = res.copy() if len(res) else good_arr([(start, end + 3, 99)])
         r["endtime"][-1] = end + 3
         return r
+    if kind == "late_row_inner":
+        # a row that is NOT the last one ends after the chunk (rows are sorted by start time only)
+        if len(res) >= 2:
+            r = res.copy()
+            r["endtime"][0] = end + 3
+            return r
+        r = good_arr([(start, end + 3, 98), (start, min(end, start + 1), 99)])
+        return r
     if kind == "early_row":
         r = res.copy() if len(res) else good_arr([(max(0, start - 2), end, 99)])
         r["time"][0] = max(0, start - 2) if start > 0 else 0
@@ -300,13 +308,13 @@ def make_plugins(case):
 
 
 APPLICABLE = {
-    "source": ["dtype_chunk", "dtype_chunk_declared", "dtype_selfchunk", "late_row", "early_row", "label", "gap", "overlap"],
-    "ordinary": ["dtype_bare", "dtype_chunk", "dtype_chunk_declared", "dtype_selfchunk", "late_row", "early_row", "label"],
-    "multi": ["dtype_bare", "dtype_chunk", "dtype_chunk_declared", "late_row", "label", "nondict"],
-    "down": ["dtype_chunk", "dtype_chunk_declared", "dtype_selfchunk", "label", "late_row", "gap", "overlap", "nongen", "nonchunk"],
-    "loop": ["dtype_bare", "late_row", "early_row", "dtype_chunk_declared"],
+    "source": ["dtype_chunk", "dtype_chunk_declared", "dtype_selfchunk", "late_row", "late_row_inner", "early_row", "label", "gap", "overlap"],
+    "ordinary": ["dtype_bare", "dtype_chunk", "dtype_chunk_declared", "dtype_selfchunk", "late_row", "late_row_inner", "early_row", "label"],
+    "multi": ["dtype_bare", "dtype_chunk", "dtype_chunk_declared", "late_row", "late_row_inner", "label", "nondict"],
+    "down": ["dtype_chunk", "dtype_chunk_declared", "dtype_selfchunk", "label", "late_row", "late_row_inner", "gap", "overlap", "nongen", "nonchunk"],
+    "loop": ["dtype_bare", "late_row", "late_row_inner", "early_row", "dtype_chunk_declared"],
     "cut": ["dtype_bare", "late_row"],
-    "window": ["dtype_bare", "late_row", "dtype_chunk_declared"],
+    "window": ["dtype_bare", "late_row", "late_row_inner", "dtype_chunk_declared"],
 }
 
 
